@@ -306,7 +306,7 @@ CLAIMED = {
              'recently stored at that very point, else the default; arbitrary op sequences (any points, panics included) are '
              'accepted by the association-list oracle; the RefCell grid and the raw-pointer grid answer identically on every '
              'op sequence.',
-        note='Trusted: Lean kernel (propext, Classical.choice, Quot.sound), rs2lean_grid.py (~450 lines), the fixed prelude of '
+        note='Trusted: Lean kernel (propext, Classical.choice, Quot.sound), rs2lean_grid.py (~620 lines, accepted spellings in its docstring) over the shared block parser rsblock.py (~530 lines), the fixed prelude of '
              'Gen/GridAddr.lean = semantics of nested Rust array indexing (panic iff an index is out of range of its level; a '
              'store changes exactly the addressed cell), RefCell borrow and raw-pointer write through &self as plain accesses in '
              'sequential code (UB of the latter is not detectable), the harness/driver pair.',
@@ -322,7 +322,7 @@ CLAIMED = {
              'started (the model returns the node as it stands at every return, so a partial write is visible); it fails on '
              'zero replacement x/y/z/data, negative replacement time or a negative adjusted value, succeeds when all '
              'replacements / all deltas and results are strictly positive, and depends on the grid only through the expected cells.',
-        note='Trusted: Lean kernel (propext, Classical.choice, Quot.sound), rs2lean_adjustable.py (~300 lines, statement grammar '
+        note='Trusted: Lean kernel (propext, Classical.choice, Quot.sound), rs2lean_adjustable.py (~650 lines; control-flow-tree grammar, helper inlining and unrolling described '
              'in its docstring), values of T as mathematical integers (overflow of a concrete T is outside the property), '
              'ArrayGrid::get as a function of the point (C17 covers the grid), the harness/driver pair.',
         ref='DESIGN.md §7 C16'),
@@ -367,7 +367,7 @@ CLAIMED = {
              'read-modify-writes and address disjoint residue classes, every sequence answers as if its owner had run alone (that '
              'each real call is exactly one fetch_or / fetch_and, and the final answers, are checked under the deterministic scheduler). The model is regenerated from /repo on every run (rs2lean.py bitmap, fail-closed) and additionally '
              'executed against the real BitMap on generated and exhaustive small-scope histories.',
-        note='Trusted: Lean kernel (propext, Classical.choice, Quot.sound), rs2lean.py bitmap translator (~150 lines), '
+        note='Trusted: Lean kernel (propext, Classical.choice, Quot.sound), rs2lean.py bitmap translator (~550 lines + rsblock.py; helpers inlined, constants folded under kernel control: class BitGen), '
              'size_of::<AtomicU64>()=8, sequential semantics of fetch_or/fetch_and/load (atomic RMW per word; concurrency on '
              'distinct residues is covered as commutation, not as a memory-model proof), the harness/driver pair.',
         ref='DESIGN.md §7 C19'),
